@@ -11,7 +11,7 @@ FORM    = 'nd:<dtype>' (values = LE bytes; dtype in i1..u8,f4,f8,?,c8,c16), 'nd:
           'nd:M8[us]' / 'nd:M8[s]' (values = list of int ticks), 'list:int:<dtype>', 'list:float', 'list:str',
           'nd:O:str', 'list:bool', 'list:datetime' (values = list of int microseconds since 1904),
           'gen:<dtype>' (dtype as for nd, or M8[us]; values = [n, mult, add]: a long array given by a formula, see gen_array)
-program keys added later (all optional): 'prelude' = calls written to the same path by an EARLIER writer in mode 'w' (the file
+program keys added later (all optional): 'container' = 'list' | 'tuple' | 'iterator' (what write_segment receives); 'prelude' = calls written to the same path by an EARLIER writer in mode 'w' (the file
           is then overwritten by the program's first session); 'reuse_writer' = one TdmsWriter(path, mode='a') object is
           entered once per session instead of a new writer per session.
 prop    = [name, kind, value]    kinds: int float bool npbool str datetime dt64:<unit> tdmsts np:<dtype> wrap:<Type>
@@ -224,6 +224,8 @@ def program(draw, max_sessions=2, max_calls=3, max_objs=4, forms=None, names=Non
     prog = {'version': draw(st.sampled_from([4712, 4713])), 'dest': dest, 'index': index, 'sessions': sessions,
             'rewrite': draw(st.sampled_from([None, None, 'one_segment', 'segment_per_object'])),
             'reuse_objects': draw(st.integers(0, 3)) == 0}
+    # how the objects of a call are handed to write_segment: the documented list, or another iterable the writer accepts
+    prog['container'] = draw(st.sampled_from(['list', 'list', 'list', 'tuple', 'iterator']))
     if dest == 'path':
         how = draw(st.sampled_from([None, None, 'prelude', 'reuse_writer']))
         if how == 'prelude':
@@ -560,7 +562,8 @@ def run_program(prog, workdir):
                             'model': model}
                 try:
                     objs = build_objects(call, pool)
-                    w.write_segment(objs)
+                    kind = prog.get('container', 'list')
+                    w.write_segment(tuple(objs) if kind == 'tuple' else iter(objs) if kind == 'iterator' else objs)
                 except Exception as e:      # noqa  a call the writer does not accept: program is outside the domain
                     return {'accepted': False, 'error': e, 'model': model}
                 model.add_call(call)
